@@ -98,7 +98,8 @@ struct PrimaryCase
     D3 pos2{}, dir2{};
 };
 
-inline std::vector<PrimaryCase> primary_lattice(bool thorough)
+// `extended`: also the two-primary and proton roots (only the C01/C05 harness runs those)
+inline std::vector<PrimaryCase> primary_lattice(bool thorough, bool extended = false)
 {
     std::vector<PrimaryCase> v;
     std::vector<double> energies = {0.03, 1.0, 100.0, 9000.0};
@@ -132,7 +133,7 @@ inline std::vector<PrimaryCase> primary_lattice(bool thorough)
     // two primaries in one event, the second one starting OUTSIDE the world: it cannot be
     // initialised (status errored) and is killed by the tracking cut in a slot that (with one
     // slot) was used by the first primary's tracks before
-    for (int k2 = 1; k2 < 3; ++k2)
+    for (int k2 = 1; k2 < 3 && extended; ++k2)
     {
         PrimaryCase pc{1, 1.0, {0.2, 0.1, 0.05}, {1, 0, 0}, fmt("k1.e1.p0.d0+k%d.out", k2)};
         pc.kind2 = k2;
@@ -141,12 +142,45 @@ inline std::vector<PrimaryCase> primary_lattice(bool thorough)
         pc.dir2 = {0, 1, 0};
         v.push_back(pc);
     }
+    // proton roots (run only by the configurations that define the 4th particle; kind 3):
+    // a positive particle that is NOT an antiparticle and has no MSC model - alone, sharing a
+    // slot with an e- that does multiple scattering (either order), and starting outside
+    if (extended)
+    {
+        double const a = 0.5773502691896258;
+        v.push_back({3, 1.0, {0.2, 0.1, 0.05}, {1, 0, 0}, "k3.e1.p0.d0"});
+        v.push_back({3, 100.0, {0.2, 0.1, 0.05}, {a, a, a}, "k3.e2.p0.d6"});
+        v.push_back({3, 0.03, {1.4, -0.3, 0.2}, {0, -1, 0}, "k3.e0.p1.d3"});
+        PrimaryCase pe{3, 1.0, {0.2, 0.1, 0.05}, {1, 0, 0}, "k3.e1.p0.d0+k1"};
+        pe.kind2 = 1;
+        pe.energy2 = 1.0;
+        pe.pos2 = {0.2, 0.1, 0.05};
+        pe.dir2 = {-1, 0, 0};
+        v.push_back(pe);
+        PrimaryCase ep{1, 1.0, {0.2, 0.1, 0.05}, {-1, 0, 0}, "k1.e1.p0.d1+k3"};
+        ep.kind2 = 3;
+        ep.energy2 = 1.0;
+        ep.pos2 = {0.2, 0.1, 0.05};
+        ep.dir2 = {1, 0, 0};
+        v.push_back(ep);
+        PrimaryCase po{1, 1.0, {0.2, 0.1, 0.05}, {1, 0, 0}, "k1.e1.p0.d0+k3.out"};
+        po.kind2 = 3;
+        po.energy2 = 1.0;
+        po.pos2 = {5.0, 0.0, 0.0};
+        po.dir2 = {0, 1, 0};
+        v.push_back(po);
+    }
     // a RANGE-limited step that ties with the boundary distance: 0.125 MeV e-/e+ with the
     // lattice's dE/dx = 2 MeV/cm has a range of exactly 0.0625 cm, the distance from
     // x = 1.4375 to the +x face (x = 1.5) of the inner box of g1
     for (int k = 1; k < 3; ++k)
         v.push_back({k, 0.125, {1.4375, 0.125, 0.0}, {1, 0, 0}, fmt("k%d.er.q2.a0", k)});
     return v;
+}
+
+inline bool needs_proton(PrimaryCase const& pc)
+{
+    return pc.kind == 3 || pc.kind2 == 3;
 }
 
 struct ConfigCase
@@ -245,6 +279,23 @@ inline std::vector<ConfigCase> config_lattice(bool thorough)
             c.xs_electron = 1.0;
             c.dedx = 2.0;
             v.push_back({c, fmt("g1.%s.s%u.o0.x0.cap%u", along_name(a), sc.first, sc.second)});
+        }
+    // 4th particle (proton): these configurations run the proton roots only
+    for (auto a : {AlongStep::linear, AlongStep::linear_msc_fluct, AlongStep::field_msc})
+        for (unsigned sl : {1u, 3u})
+        {
+            if (!thorough && sl == 3 && a != AlongStep::linear_msc_fluct)
+                continue;
+            LoopConfig c;
+            c.geometry = 1;
+            c.geo_variant = 1;
+            c.along = a;
+            c.slots = sl;
+            c.with_proton = true;
+            c.xs_gamma = 0.7;
+            c.xs_electron = 1.0;
+            c.dedx = 2.0;
+            v.push_back({c, fmt("g1.%s.s%u.o0.x0.pr", along_name(a), sl)});
         }
     // production default: no post-interaction cuts (secondaries are born below the cuts)
     for (auto a : {AlongStep::linear, AlongStep::linear_fluct})
@@ -436,8 +487,10 @@ inline Verdict check_energy(LoopProblem const& P, PrimaryCase const& pc,
         }
     }
     auto kind_id = [&](int kind) {
-        return kind == 0 ? int(P.gamma.unchecked_get())
-                         : kind == 1 ? int(P.electron.unchecked_get()) : pos_id;
+        return kind == 0   ? int(P.gamma.unchecked_get())
+               : kind == 1 ? int(P.electron.unchecked_get())
+               : kind == 2 ? pos_id
+                           : int(P.proton.unchecked_get());
     };
     long double in = avail(kind_id(pc.kind), pc.energy);
     if (pc.kind2 >= 0)
